@@ -57,6 +57,24 @@ pub fn gen(tier: &str, seed: u64, emit: &mut dyn FnMut(String)) {
                 emit(dmx_case(0, "", &[m.bytes()]));
             }
         }
+        // (f) a long run of damaged sections (each with another version_number, so that each reaches the CRC layer), then probes:
+        // the 2nd, the 21st, the 33rd ... damaged section is as unwelcome as the first
+        if i % 4 == 0 { for (which, sect) in [(0u8, &pat1), (1u8, &pmt1)] {
+            let pid = if which == 0 { 0 } else { pmt_pid };
+            let mut m = Mux::new();
+            m.psi(0, &pat0, 0, 0, &mut rng);
+            m.psi(pmt_pid, &pmt0, 0, if multi { 1 } else { 0 }, &mut rng);
+            let run = *rng.pick(&[2usize, 3, 8, 16, 21, 22, 33, 40, 70]);
+            for k in 0..run {
+                let mut bad = sect.clone();
+                bad[5] = (bad[5] & 0xc1) | ((((k as u8) * 3 + 7) & 31) << 1);
+                let body_end = bad.len() - 4; let j = 8 + rng.below((body_end - 8) as u64) as usize; bad[j] ^= 1 << rng.below(8);
+                if crc32_mpeg(&bad) == 0 { bad[j] ^= 0xff; }
+                m.psi(pid, &bad, 0, 0, &mut rng);
+            }
+            for p in [pmt_pid, new_pid, pids[2], pids[3], *pids.last().unwrap()] { let pl = rng.bytes(184); let cc = rng.below(16) as u8; m.pkts.push(ts_packet(p, false, cc, false, 0, None, &pl)); }
+            emit(dmx_case(0, "", &[m.bytes()]));
+        } }
         // (e) three steps: the applied table T; something that makes the de-duplication layer forget T's version (a damaged
         // section with another version, or a start packet whose pointer_field is out of range); then T again with only body
         // bytes damaged (header and CRC_32 field intact)
